@@ -47,6 +47,16 @@ CHECKS = {
             "Layer (a) enumerates delivery patterns of reference-built fragment frames put on the air by scripted injector radios and received through the real node's chip, update() and queue; layer (b) runs 2-3 real concurrent senders under seeded packet/ACK loss. Oracle: every dequeued frame is one complete sent message, at most once.",
             "Trusts the reference fragmenter (TMRh20 numbering) and chip model M4; claims nothing about which messages get through.",
             "5 C06"),
+    "C13": ("fault_enumeration",
+            "deterministic simulation of routes of 1..8 hops (all nodes as seeded-scheduled tasks) with every single-failure position enumerated: forward hop k fails, link ACKs of hop k lost, NETWORK_ACK relay j fails",
+            "For each route length the single-failure positions are enumerated as explicit air fault rules (by transmitting node and network frame type); write()'s return value and duration at the origin are compared with the chip model's record of first-hop acceptance and with the sniffer's record of NETWORK_ACK frames stored by the origin's radio; NETWORK_ACK originations at the delivering router are counted per forwarded copy.",
+            "Trusts chip/air model M1-M4, M7, M9; a NETWORK_ACK unread in the FIFO at the deadline counts as a legitimate timeout (margin in evidence).",
+            "5 C13"),
+    "C14": ("exploration",
+            "deterministic simulation of populated topologies (5..16 nodes as seeded-scheduled tasks with MCU jitter): multicasts from every sender class to every level; application logs, chip ACK ground truth and sniffer compared at quiescence",
+            "Seeded populated topologies with per-node allow_multicast / one relaying node; after each multicast the set of application logs that hold it is compared with the level membership, the chip model tells whether any transmission requested an ACK and the sniffer whether any ACK appeared, and the relaying node's re-broadcast is checked on the air.",
+            "Trusts chip/air model M3, M10; timing envelope for fragmented multicasts and the two generator restrictions listed in evidence.assumptions.",
+            "5 C14"),
     "C18": ("exploration",
             "deterministic simulation: seeded histories of FakeBLE configuration/hop/channel/with-block calls; every sniffed on-air payload decoded by an independent bit-serial BLE reference codec for the tuned channel",
             "Seeded call histories (plus the complete name-length x show_pa_level x PA x chunk-length grid in thorough); each advertisement is taken from the simulated air with the RF_CH of that transmission and de-whitened/CRC-checked/parsed by a spec-derived codec that shares no code with fake_ble.py; capacity arithmetic is recomputed independently. The history dimension (whitening seed vs. channel register) is what the simulator contributes; no fault is involved.",
